@@ -596,6 +596,7 @@ type Options struct {
 	PrintSep          string
 	Sync              bool
 	History           *History
+	historyMax        int
 	Header            []string
 	HeaderLines       int
 	HeaderFirst       bool
@@ -712,6 +713,7 @@ func defaultOptions() *Options {
 		PrintSep:     "\n",
 		Sync:         false,
 		History:      nil,
+		historyMax:   defaultHistoryMax,
 		Header:       make([]string, 0),
 		HeaderLines:  0,
 		HeaderFirst:  false,
@@ -2175,14 +2177,8 @@ func optString(arg string, prefix string) (bool, string) {
 
 func parseOptions(index *int, opts *Options, allArgs []string) error {
 	var err error
-	var historyMax int
-	if opts.History == nil {
-		historyMax = defaultHistoryMax
-	} else {
-		historyMax = opts.History.maxSize
-	}
 	setHistory := func(path string) error {
-		h, e := NewHistory(path, historyMax)
+		h, e := NewHistory(path, opts.historyMax)
 		if e != nil {
 			return e
 		}
@@ -2190,12 +2186,14 @@ func parseOptions(index *int, opts *Options, allArgs []string) error {
 		return nil
 	}
 	setHistoryMax := func(max int) error {
-		historyMax = max
-		if historyMax < 1 {
+		if max < 1 {
 			return errors.New("history max must be a positive integer")
 		}
+		// Remember the size for --history given later, possibly by another
+		// source of options ($FZF_DEFAULT_OPTS, command line)
+		opts.historyMax = max
 		if opts.History != nil {
-			opts.History.maxSize = historyMax
+			opts.History.maxSize = max
 		}
 		return nil
 	}
